@@ -168,6 +168,31 @@ TGet(cur, steps, i) ==
   IF i > Len(steps) THEN Ok(cur)
   ELSE LET r == TreeGetItem(cur, steps[i]) IN IF r.ok THEN TGet(r.v, steps, i + 1) ELSE r
 
+\* defaults (Match / And / Or / Switch default=, Optional(key, default=)) are evaluated as
+\* argument values against the current target: T expressions inside them -- [k:"targ", steps],
+\* also inside containers -- are resolved, everything else stands for itself, and containers
+\* are built afresh on every evaluation
+VTarg(steps) == [k |-> "targ", steps |-> steps]
+RECURSIVE ArgVal(_, _)
+ArgVal(t, d) ==
+  IF d.k = "targ" THEN TGet(t, d.steps, 1)
+  ELSE IF ~IsC(d) THEN Ok(d)
+  ELSE LET n == Len(d.items)
+           rs == [i \in 1..n |-> IF d.cls \in MapClasses
+                                  THEN [k |-> ArgVal(t, d.items[i].key), v |-> ArgVal(t, d.items[i].val)]
+                                  ELSE [k |-> Ok(VNone), v |-> ArgVal(t, d.items[i])]]
+       IN IF \E i \in 1..n : ~rs[i].k.ok \/ ~rs[i].v.ok THEN Exc("KeyError")
+          ELSE Ok(VC(d.cls, [i \in 1..n |-> IF d.cls \in MapClasses THEN Entry(rs[i].k.v, rs[i].v.v) ELSE rs[i].v.v]))
+RECURSIVE HasTarg(_)
+HasTarg(d) == d.k = "targ" \/ (IsC(d) /\ \E i \in 1..Len(d.items) :
+                 IF d.cls \in MapClasses THEN HasTarg(d.items[i].key) \/ HasTarg(d.items[i].val) ELSE HasTarg(d.items[i]))
+\* what a caller who mutates a returned container does to it (used to state that a spec object
+\* evaluated again yields what a fresh one yields: nothing of an earlier result lives on in it)
+Poisoned(d) ==
+  IF ~IsC(d) \/ d.cls \in {"tuple", "frozenset"} THEN d
+  ELSE IF d.cls \in MapClasses THEN VC(d.cls, Append(d.items, Entry(VStr("#"), VInt(1))))
+  ELSE VC(d.cls, Append(d.items, VStr("#")))
+
 \* the named predicates of the harness library: what calling them on t does (a value, or
 \* the class of the exception raised)
 \*   recip: 1 / x > 0      head: x[0] == 'a'      boom: ValueError      boom_attr: AttributeError
@@ -251,8 +276,16 @@ Hashable(p) ==
 \* the fragment the module gives a meaning to: literals, types and container patterns only
 \* under Match (in Auto mode they are paths / constructors / callables: C03's business);
 \* Optional / Required only as dict keys
-RECURSIVE InFragment(_, _)
+\* defaults are plain builtin containers: arg_val neither rebuilds nor resolves T inside
+\* instances of subclasses (OrderedDict ...), which the documentation does not cover
+RECURSIVE PlainDefault(_)
+PlainDefault(d) ==
+  ~IsC(d) \/ (d.cls # "odict" /\ \A i \in 1..Len(d.items) :
+                 IF d.cls \in MapClasses THEN PlainDefault(d.items[i].key) /\ PlainDefault(d.items[i].val) ELSE PlainDefault(d.items[i]))
+RECURSIVE InFragment(_, _), InFragment0(_, _)
 InFragment(mode, p) ==
+  InFragment0(mode, p) /\ (p.op \in {"and", "or", "switch", "match", "check", "optional"} /\ p.hasdef => PlainDefault(p.def))
+InFragment0(mode, p) ==
   LET all(sq, m) == \A i \in 1..Len(sq) : InFragment(m, sq[i]) IN
   IF p.op \in {"lit", "type"} THEN mode = "match"
   ELSE IF p.op \in {"pred", "regex", "m", "mtruthy", "msub", "msubt", "tget", "val", "check"} THEN TRUE
@@ -271,6 +304,7 @@ InFragment(mode, p) ==
                   ~(p.items[i][1].op = "optional" /\ p.items[j][1].op = "optional" /\ PyEq(p.items[i][1].key, p.items[j][1].key))
             /\ Hashable(p.items[i][1])
             /\ InFragment(mode, KeyPat(p.items[i][1]))
+            /\ (p.items[i][1].op = "optional" /\ p.items[i][1].hasdef => PlainDefault(p.items[i][1].def))
             /\ (p.items[i][1].op = "required" => ~IsEqKey(p.items[i][1].key))
             /\ InFragment(mode, p.items[i][2])
   ELSE FALSE
@@ -338,13 +372,13 @@ Core(mode, t, p) ==
 \* sub-spec that cannot be evaluated
 Holds(mode, t, p) ==
   IF p.op = "switch"
-  THEN Core(mode, t, p) \/ (p.hasdef /\ \A i \in 1..Len(p.cases) : ~Holds(mode, t, p.cases[i][1]))
+  THEN Core(mode, t, p) \/ (p.hasdef /\ ArgVal(t, p.def).ok /\ \A i \in 1..Len(p.cases) : ~Holds(mode, t, p.cases[i][1]))
   ELSE IF p.op = "check" THEN TGet(t, p.sub, 1).ok /\ (Core(mode, t, p) \/ p.hasdef)
-  ELSE Core(mode, t, p) \/ HasDef(p)
+  ELSE Core(mode, t, p) \/ (HasDef(p) /\ ArgVal(t, p.def).ok)
 
 \* the value a passing evaluation yields (meaningful only where Holds)
 Denotes(mode, t, p) ==
-  IF HasDef(p) /\ ~Core(mode, t, p) THEN p.def
+  IF HasDef(p) /\ ~Core(mode, t, p) THEN (IF p.op = "check" THEN p.def ELSE ArgVal(t, p.def).v)
   ELSE IF p.op \in {"lit", "type", "regex", "m", "mtruthy", "msub", "msubt", "not", "check"} THEN t
   ELSE IF p.op = "pred" THEN (IF mode = "match" THEN t ELSE PredRet(p.name, t).v)
   ELSE IF p.op = "tget" THEN TGet(t, p.steps, 1).v
@@ -366,7 +400,7 @@ Denotes(mode, t, p) ==
              absent(sk) == sk.op = "optional" /\ sk.hasdef /\
                            ~\E i \in 1..Len(t.items) : PyEq(t.items[i].key, sk.key)
              dflt == SelectSeq(p.items, LAMBDA it : absent(it[1]))
-         IN VC("dict", ents \o [i \in 1..Len(dflt) |-> Entry(dflt[i][1].key, dflt[i][1].def)])
+         IN VC("dict", ents \o [i \in 1..Len(dflt) |-> Entry(dflt[i][1].key, ArgVal(t, dflt[i][1].def).v)])
   ELSE VNone
 
 \* v is t plus (possibly) added dict keys, recursively: "returns them unchanged"
@@ -440,7 +474,12 @@ Collect(rs, extra, v) ==
       calls |-> SeqCalls(rs), same |-> FALSE]
 
 \* _Bool.glomit / Switch / Match / Check: `except GlomError` -> default
-WithDefault(o, p) == IF Caught(o) /\ p.hasdef THEN [Pass(p.def, o.calls, FALSE) EXCEPT !.amb = o.amb] ELSE o
+\* arg_val(target, default): (mutant default_not_evaluated: a "plain" container default is handed
+\* out as it is, its T leaves unresolved)
+EvDefault(t, d, calls) ==
+  LET r == IF Mutant = "default_not_evaluated" /\ d.k # "targ" THEN Ok(d) ELSE ArgVal(t, d) IN
+  IF r.ok THEN Pass(r.v, calls, FALSE) ELSE Fail({"PathAccessError"}, calls)
+WithDefault(o, p, t) == IF Caught(o) /\ p.hasdef THEN [EvDefault(t, p.def, o.calls) EXCEPT !.amb = o.amb] ELSE o
 
 RECURSIVE Ev(_, _, _), EvAnd(_, _, _, _), EvOr(_, _, _, _, _), EvSwitch(_, _, _, _),
           EvAlts(_, _, _, _), EvItem(_, _, _), EvEntry(_, _, _, _)
@@ -464,7 +503,7 @@ EvOr(mode, t, cs, i, acc) ==
 \* Switch.glomit: first case whose key spec passes; only its value spec is evaluated and
 \* its outcome (also a failure) is the outcome; the default only when no key passes
 EvSwitch(mode, t, p, i) ==
-  IF i > Len(p.cases) THEN (IF p.hasdef THEN Pass(p.def, <<>>, FALSE) ELSE Fail({"MatchError"}, <<>>))
+  IF i > Len(p.cases) THEN (IF p.hasdef THEN EvDefault(t, p.def, <<>>) ELSE Fail({"MatchError"}, <<>>))
   ELSE LET rk == Ev(mode, t, p.cases[i][1]) IN
        IF rk.ok THEN
          LET rv == Ev(mode, t, p.cases[i][2]) IN
@@ -544,11 +583,16 @@ EvDict(t, p0) ==
                    THEN SelectSeq(pairs, LAMBDA pr : ~\E i \in 1..Len(dflt) : PyEq(pr.key, dflt[i][1].key))
                    ELSE pairs
            \* (mutant opt_default_validated: a default must itself match the value pattern)
+           dvals == [i \in 1..Len(dflt) |->         \* arg_val(target, default): evaluated against the dict
+                       IF Mutant = "default_not_evaluated" /\ dflt[i][1].def.k # "targ" THEN Ok(dflt[i][1].def)
+                       ELSE ArgVal(t, dflt[i][1].def)]
+           undef == \E i \in 1..Len(dflt) : ~dvals[i].ok
            baddef == Mutant = "opt_default_validated" /\
                      \E i \in 1..Len(dflt) : ~Ev("match", dflt[i][1].def, dflt[i][2]).ok
        IN Collect([i \in 1..n |-> es[i].r],
-                  IF (missing # {} /\ Mutant # "required_ignored") \/ baddef THEN {"MatchError"} ELSE {},
-                  VC("dict", base \o [i \in 1..Len(dflt) |-> Entry(dflt[i][1].key, dflt[i][1].def)]))
+                  (IF (missing # {} /\ Mutant # "required_ignored") \/ baddef THEN {"MatchError"} ELSE {}) \cup
+                  (IF undef THEN {"PathAccessError"} ELSE {}),
+                  VC("dict", base \o [i \in 1..Len(dflt) |-> Entry(dflt[i][1].key, dvals[i].v)]))
 
 EvSeqPat(t, p) ==
   IF ~PyIsInstance(t, p.op) /\ ~(Mutant = "set_family_loose" /\ IsC(t) /\ Family(t.cls) = Family(p.op))
@@ -611,8 +655,8 @@ Ev(mode, t, p) ==
     \* the historic behaviour of And(.., default=d) & x / Or(.., default=d) | x: one flat
     \* combinator over the left operand's children and x, the default gone
     Ev(mode, t, [p EXCEPT !.c = p.c[1].c \o Tail(p.c), !.form = "ctor"])
-  ELSE IF p.op = "and" THEN WithDefault(EvAnd(mode, t, p.c, 1), p)
-  ELSE IF p.op = "or" THEN WithDefault(EvOr(mode, t, p.c, 1, {}), p)
+  ELSE IF p.op = "and" THEN WithDefault(EvAnd(mode, t, p.c, 1), p, t)
+  ELSE IF p.op = "or" THEN WithDefault(EvOr(mode, t, p.c, 1, {}), p, t)
   ELSE IF p.op = "not" THEN                              \* Not.glomit
     LET r == Ev(mode, t, p.c[1]) IN
     IF r.ok THEN [Fail({IF Mutant = "not_glomerror" THEN "GlomError" ELSE "MatchError"}, r.calls) EXCEPT !.amb = r.amb]
@@ -622,7 +666,7 @@ Ev(mode, t, p) ==
   ELSE IF p.op = "check" THEN EvCheck(t, p)
   ELSE IF p.op = "match" THEN                                           \* Match.glomit (also nested)
     IF Mutant = "nested_match_default_ignored" /\ mode = "match" THEN Ev("match", t, p.sub)
-    ELSE WithDefault(Ev("match", t, p.sub), p)
+    ELSE WithDefault(Ev("match", t, p.sub), p, t)
   ELSE IF p.op \in {"list", "set", "frozenset"} THEN EvSeqPat(t, p)
   ELSE IF p.op = "tuple" THEN EvTuple(t, p)
   ELSE IF p.op = "dict" THEN EvDict(t, p)
@@ -654,9 +698,23 @@ CtorTable ==
 \* a spec object evaluated again, after it was evaluated on t1: the outcome is that of a fresh
 \* object (specs carry no memory).  (mutant or_remembers_branch: an Or tries first the non-final
 \* child that passed last time)
+\* (mutant default_aliased: a container default is the very object held by the spec, so what a
+\* caller did to an earlier result shows in the next one)
+RECURSIVE PoisonDefaults(_)
+PoisonDefaults(p) ==
+  LET each(sq) == [i \in 1..Len(sq) |-> PoisonDefaults(sq[i])]
+      own == IF p.op \in {"and", "or", "match", "switch", "optional"} /\ p.hasdef THEN [p EXCEPT !.def = Poisoned(@)] ELSE p
+  IN IF p.op \in {"and", "or", "not"} THEN [own EXCEPT !.c = each(@)]
+     ELSE IF p.op = "match" THEN [own EXCEPT !.sub = PoisonDefaults(@)]
+     ELSE IF p.op = "switch" THEN [own EXCEPT !.cases = [i \in 1..Len(@) |-> <<PoisonDefaults(@[i][1]), PoisonDefaults(@[i][2])>>]]
+     ELSE IF p.op \in {"list", "set", "frozenset"} THEN [p EXCEPT !.alts = each(@)]
+     ELSE IF p.op = "tuple" THEN [p EXCEPT !.elems = each(@)]
+     ELSE IF p.op = "dict" THEN [p EXCEPT !.items = [i \in 1..Len(@) |-> <<PoisonDefaults(@[i][1]), PoisonDefaults(@[i][2])>>]]
+     ELSE own
 RECURSIVE EvAgain(_, _, _, _)
 EvAgain(mode, t1, t2, p) ==
-  IF p.op = "match" THEN WithDefault(EvAgain("match", t1, t2, p.sub), p)
+  IF Mutant = "default_aliased" THEN Ev(mode, t2, PoisonDefaults(p))
+  ELSE IF p.op = "match" THEN WithDefault(EvAgain("match", t1, t2, p.sub), p, t2)
   ELSE IF Mutant = "or_remembers_branch" /\ p.op = "or" THEN
     LET S == {i \in 1..Len(p.c) : Ev(mode, t1, p.c[i]).ok}
         j == IF S = {} THEN 0 ELSE MinOf(S)
